@@ -4,6 +4,7 @@ import MakoModel.Inherit.LemmasBind
 import MakoModel.Inherit.LemmasExec
 import MakoModel.Inherit.LemmasMemo
 import MakoModel.Inherit.LemmasOnce
+import MakoModel.Inherit.Examples
 /-!
 # C06 – inheritance chains dispatch self/next/parent correctly; blocks render once
 
@@ -35,17 +36,6 @@ theorem block_checks (l) : check l = [] ↔ (allBlocksL l).Nodup ∧ misplacedL 
 namespace MakoModel.C06
 open MakoModel.Inherit
 open MakoModel.Generated.NsAttrs (nsAttrs)
-
-/-- a three-level chain used to show that the hypotheses below are satisfiable: `T₀` inherits through an
-expression and overrides block `b` (calling `parent.b()`), `T₁` passes `x=5` to `next.body`, `T₂` is the base,
-declares `b`, reads `self.attr.a` and has the signature `<%page args="p, x=9"/>` -/
-def ex3 : List Level :=
-  [ { nodes := [.text 1, .block (some ['b']) 1 [.text 2, .call .parent ['b'] [] []], .args],
-      inherit := .dynamic, sig := [(['x'], some 0)] },
-    { nodes := [.text 3, .call .next bodyName [] [(['x'], 5), (['q'], 6)], .defn ['d'] [.text 8]],
-      inherit := .static, attrs := [(['a'], 7)] },
-    { nodes := [.text 4, .block (some ['b']) 2 [.text 5], .call .next bodyName [] [], .attr .self ['a'], .args],
-      sig := [(['p'], none), (['x'], some 9)] } ]
 
 /-! ## chain construction -/
 
@@ -244,23 +234,18 @@ theorem anonymous_block_in_place (c : List Level) (D : Dispatch) (run : Env → 
     step c D run env (.block none ln kids) = run env kids := rfl
 
 /-- **named_block_once**, global form (partial: names are not attributes of mako's Namespace objects).
-For a chain of any length in which every body consists of texts, defs, named blocks holding texts, and (from
-`T₁` on) exactly... any number of `next.body()` calls, with blocks overridden at arbitrary levels: the output of
-the render is exactly `expandBody`: every body in place of the `next.body()` that called it, and every named
-block replaced - at its position in the base-most template declaring it, and nowhere else - by the texts of its
-most-derived definition. -/
+For a chain of any length in which every body consists of texts, defs, named blocks holding texts and (from `T₁`
+on) `next.body()` calls (`PlainChain`), with blocks declared and overridden at arbitrary levels: the output of the
+render is exactly `expandBody` - every body in place of the `next.body()` that called it, and every named block
+replaced by the texts of its most-derived definition at its position in the base-most template declaring it,
+and by nothing at its positions in the other templates (`expandNodes`: one copy per execution of that one
+position, since block names are unique within a template). -/
 theorem named_block_once_partial (c : List Level) (hwf : wf c = true) (hc : compiles c = true)
     (hp : PlainChain c) (hn : ∀ x ∈ usedNames c, x ∉ nsAttrs) (fuel : Nat) (out : List Out)
     (h : render c fuel [] = .ok out) :
     out = expandBody c (c.length - 1) := by
   rw [render_follows_rules_partial c hwf hc hn] at h
   exact ruleRender_plain c (by cases c <;> simp_all [wf]) hp fuel out h
-
-/-- a plain three-level chain: `b` declared in `T₂` and `T₀`, `e` in `T₁` and `T₀` -/
-def exPlain : List Level :=
-  [ { nodes := [.text 1, .block (some ['b']) 1 [.text 2], .block (some ['e']) 2 [.text 3]], inherit := .static },
-    { nodes := [.text 4, .block (some ['e']) 1 [.text 5], .call .next bodyName [] [], .text 6], inherit := .static },
-    { nodes := [.text 7, .block (some ['b']) 1 [.text 8], .call .next bodyName [] [], .text 9] } ]
 
 example : wf exPlain = true ∧ compiles exPlain = true ∧ (∀ x ∈ usedNames exPlain, x ∉ nsAttrs) ∧
     render exPlain 50 [] = .ok (expandBody exPlain 2) ∧
